@@ -485,7 +485,8 @@ impl<T: Elem + SatisfyTraits<Tr>, M: MX, Tr: TrX + ?Sized> World<T, M, Tr> {
 /// adaptor op code = pre << 6 | which << 3 | n : `pre` plain next() calls first, then adaptor `which` with argument `n`
 pub fn adapt_ops() -> Vec<u8> {
     let mut v = Vec::new();
-    for pre in 0..3u8 { for which in 0..8u8 { for n in 0..6u8 {
+    for pre in 0..3u8 { for which in 0..8u8 { for n in 0..8u8 {
+        if which != 7 && n > 5 { continue; }
         v.push(pre << 6 | which << 3 | n);
     } } }
     v
